@@ -26,7 +26,7 @@ def build_corpus(shards, crates=None):
 
 
 # ------------------------------------------------------------------------------------------------ TLC: inputs
-def enumerate_inputs(progs, workdir, tier, workers=8, timeout=1500, seminaive=False):
+def enumerate_inputs(progs, workdir, tier, workers=8, timeout=1500, seminaive=False, cfg=None):
     """Runs SemGen on the given programs. Returns (TlcResult, {prog name: [case dict(pi, inputs, lm)]}).
     seminaive=True (always in the thorough tier) also checks SemiNaive.tla's evaluation strategy against the least
     model on every enumerated database; the negative control (plan without the last version vector) must then fail."""
@@ -34,7 +34,7 @@ def enumerate_inputs(progs, workdir, tier, workers=8, timeout=1500, seminaive=Fa
     pf = os.path.join(workdir, "progs.json")
     with open(pf, "w") as f:
         json.dump(progs, f)
-    cfg = "SemGen_thorough.cfg" if tier == "thorough" else ("SemGen_sn.cfg" if seminaive else "SemGen.cfg")
+    cfg = cfg or ("SemGen_thorough.cfg" if tier == "thorough" else ("SemGen_sn.cfg" if seminaive else "SemGen.cfg"))
     res = vlib.run_tlc("SemGen", cfg, env={"PROGS": pf}, workers=workers, timeout=timeout, tags=("CASE", "PLAN"), xss=True)
     vlib.tlc_ok(res, "SemGen")
     by = {}
